@@ -236,6 +236,7 @@ mut("eio_fill_buf_longer_slice", E, """impl<const N: usize> embedded_io::BufRead
         if front.len() >= back.len() {""", ["C16:TWIN"])
 mut("dbg_csp_add_tightened", D, """        debug_assert!(increment <= self.slice_len);""", """        debug_assert!(increment < self.slice_len);""", ["C11:DBGASSERT1"])
 mut("dbg_drop_range_end_tightened", L, """        debug_assert!(range.end <= size, "end of range out-of-bounds");""", """        debug_assert!(range.end < size, "end of range out-of-bounds");""", ["C11:DBGASSERT1"])
+mut("consume_max", IO, """        let amt = cmp::min(amt, self.len());""", """        let amt = cmp::max(amt, self.len());""", ["C14:IO4"])
 mut("view_back_off_by_one", L, """            let (back, front) = self.items.split_at(start);
             (front, &back[..end])""", """            let (back, front) = self.items.split_at(start);
             (front, &back[..end + 1])""", ["C07:VIEW2", "C04:VIEW2"])
